@@ -10,6 +10,8 @@ CONSTANTS
   ReverseViewCached = FALSE
   AliasBoundToFirstObject = FALSE
   ShallowCopy = FALSE
+  ViewReplacesEmptyIndex = FALSE
+  WatchParts = TRUE
   SrcSteps = 2
   Emit = FALSE
 SPECIFICATION Spec
